@@ -34,6 +34,7 @@ Definition dispatch (cmd : string) (input : string) : string :=
   | "shrink" => run_shrink input
   | "shrink-why" => run_shrink_why input
   | "focus" => run_focus input
+  | "heap-a64" => run_heap_a64 input
   | "fun2core" => run_fun2core input
   | "subst" => run_subst input
   | "subst-corr" => run_subst_corr input
